@@ -20,11 +20,36 @@ from .model import E, short_path, CallSite as CallSiteT
 WRAPPERS = {"Option::ok_or_else", "Option::ok_or", "Result::map_err", "Result::ok", "Option::ok_or_else"}
 
 
-def peel(e):
-    """Strip `?`, ok_or/ok_or_else/map_err wrappers and the `.0` of an overflow-asserted binary op."""
+SUCCESS_VARIANTS = ("Some", "Ok", "Continue")
+
+
+def unwrap_success(e):
+    """If `e` denotes the success payload of a fallible value X — written `X?`, `ok_or(_else)(X, ..)?`, `map_err(X, ..)?`,
+    or bound by a pattern (`let Some(v) = X else {..}` / `match X { Ok(v) => .. }`, i.e. `X@Some.0` / `X@Ok.0`) — return X
+    (with the error-mapping wrappers removed); else None. All these forms mean: "the value X carried, on the path where X
+    succeeded"; the failing path never reaches a use of the payload."""
+    if e.k == "try":
+        x = e.a[0]
+    elif e.k == "field" and e.a[1] == "0" and e.a[0].k == "variant" and e.a[0].a[1] in SUCCESS_VARIANTS:
+        x = e.a[0].a[0]
+    else:
+        return None
     while True:
-        if e.k == "try":
-            e = e.a[0]
+        if x.k == "trybranch":
+            x = x.a[0]
+        elif x.k == "call" and x.a[0] in WRAPPERS and x.a[1]:
+            x = x.a[1][0]
+        else:
+            return x
+
+
+def peel(e):
+    """Strip success-unwrapping (`?`, `@Some.0`, `@Ok.0`), ok_or/ok_or_else/map_err wrappers and the `.0` of an
+    overflow-asserted binary op."""
+    while True:
+        x = unwrap_success(e)
+        if x is not None:
+            e = x
         elif e.k == "trybranch":
             e = e.a[0]
         elif e.k == "call" and e.a[0] in WRAPPERS and e.a[1]:
@@ -33,6 +58,58 @@ def peel(e):
             e = e.a[0]
         else:
             return e
+
+
+def canon(e):
+    """Canonical rendering in which every way of taking the success payload of X is written `X!` (see unwrap_success);
+    otherwise identical to str(e). Use it to match facts/arguments independently of `?` vs let-else vs match."""
+    x = unwrap_success(e)
+    if x is not None:
+        return canon(x) + "!"
+    k, a = e.k, e.a
+    if k == "field":
+        return "%s.%s" % (canon(a[0]), a[1])
+    if k == "variant":
+        return "%s@%s" % (canon(a[0]), a[1])
+    if k == "index":
+        return "%s[%s]" % (canon(a[0]), canon(a[1]) if isinstance(a[1], E) else a[1])
+    if k == "call":
+        return "%s(%s)" % (a[0], ", ".join(canon(x) for x in a[1]))
+    if k == "bin":
+        return "(%s %s %s)" % (canon(a[1]), a[0], canon(a[2]))
+    if k == "un":
+        return "%s(%s)" % (a[0], canon(a[1]))
+    if k == "cast":
+        return "(%s as %s)" % (canon(a[0]), a[1])
+    if k == "agg":
+        return "%s{%s}" % (a[0], ", ".join("%s: %s" % (n, canon(v)) for n, v in a[1]))
+    if k == "discr":
+        return "discr(%s)" % canon(a[0])
+    if k == "len":
+        return "len(%s)" % canon(a[0])
+    if k == "phi":
+        return "phi(%s)" % " | ".join(sorted(set(canon(x) for x in a[0])))
+    if k == "trybranch":
+        return "trybranch<%s>" % canon(a[0])
+    return str(e)
+
+
+def canon_facts(fn, bb):
+    """cmp_facts with canonical operand renderings: [(op, a_str, b_str|None)]"""
+    return [(o, canon(a), canon(b) if b is not None else None) for (o, a, b) in A.cmp_facts(fn, bb)]
+
+
+def has_canon_bool(facts, truth, rx):
+    return any(b is None and o == ("true" if truth else "false") and re.search(rx, a) for (o, a, b) in facts)
+
+
+def ok_payload_operands(fn):
+    """[(bb, operand)] for every `return Ok(x)` construction (operand of the Ok aggregate assigned to the return place)"""
+    out = []
+    for bb, si, s in fn.statements():
+        if s[0] == "=" and s[1] == [0] and s[2][0] == "agg" and s[2][1] == "adt" and s[2][3] and s[2][3][0] == "Ok" and s[2][4]:
+            out.append((bb, s[2][4][0]))
+    return out
 
 
 _CHK = re.compile(r"^(?:u8|u16|u32|u64|u128|usize|i8|i16|i32|i64|i128|isize)::(checked|saturating|wrapping)_(add|sub|mul|div)$")
@@ -333,21 +410,22 @@ def is_min_of(fn, op, a_re, b_re):
        * a call Ord::min / cmp::min / <int>::min over operands matching a_re and b_re (either order), or
        * a comparison + select: every definition of the value (following copies) is an operand matching a_re or b_re and
          the block of that definition is dominated by the branch fact `chosen <= other` (or `<`).
+    a_re / b_re are matched against CANONICAL renderings (`X!` for any success-unwrapping of X, see canon()).
     Returns (ok, description)."""
     e = fn.expr(op)
     if e.k == "call" and re.search(r"(^|::)min$", e.a[0]) and len(e.a[1]) == 2:
-        s = [str(x) for x in e.a[1]]
+        s = [canon(x) for x in e.a[1]]
         ok = (re.search(a_re, s[0]) and re.search(b_re, s[1])) or (re.search(a_re, s[1]) and re.search(b_re, s[0]))
         return bool(ok), "%s(%s, %s)" % (e.a[0], s[0][:60], s[1][:60])
     defs = phi_defs(fn, op) if isinstance(op, list) else [(None, e)]
     if len(defs) < 2:
-        return False, "neither a min() call nor a guarded select: %s" % str(e)[:120]
+        return False, "neither a min() call nor a guarded select: %s" % canon(e)[:120]
     seen = set()
     for bb, d in defs:
-        s = str(d)
+        s = canon(d)
         if bb is None:
             return False, "unguarded alternative %s" % s[:80]
-        facts = A.cmp_facts(fn, bb)
+        facts = canon_facts(fn, bb)
         if re.search(a_re, s) and not re.search(b_re, s):
             if not A.has_fact(facts, "<=", a_re, b_re):
                 return False, "alternative `%s` is chosen without the fact a <= b" % s[:60]
@@ -410,3 +488,49 @@ def closure_writes(prog, parent, cfn, path_re=r"."):
     params = {cfn.locals[i + 1][1]: "$%d" % i for i in range(1, cfn.arg_count) if cfn.locals[i + 1][1]}
     return [(subst_names(w["path"], {}, params), subst_names(str(w["rv"]), {}, params))
             for w in A.field_writes(cfn, path_re) if w["kind"] == "assign"]
+
+
+def success_edge(fn, cs, _depth=0):
+    """(switch_bb, success_bb, failure_bb) for a fallible call whose result is tested — by `?` (possibly behind
+    map_err/ok_or_else wrappers) or by a direct `match` / `let .. else` / `if let` on the returned Result/Option.
+    success_bb is the block entered only when the call succeeded (Ok / Some). None if the result is not branched on."""
+    from . import anchor
+    ts = anchor.try_switch_of(fn, cs)
+    if ts is not None:
+        return ts
+    if _depth > 3 or not cs.dest:
+        return None
+    d0 = cs.dest[0]
+    # error-mapping wrappers consuming the result
+    for w in fn.calls:
+        if w is not cs and w.short in WRAPPERS and w.args and isinstance(w.args[0], list) and w.args[0] and w.args[0][0] == d0:
+            r = success_edge(fn, w, _depth + 1)
+            if r is not None:
+                return r
+    ty = fn.locals[d0][0]
+    if ty.startswith("std::result::Result"):
+        ok_label = 0
+    elif ty.startswith("std::option::Option"):
+        ok_label = 1
+    else:
+        return None
+    # locals holding discr(dest) (also through one copy of dest)
+    aliases = {d0}
+    for bb, si, s in fn.statements():
+        if s[0] == "=" and len(s[1]) == 1 and s[2][0] == "use" and isinstance(s[2][1], list) and len(s[2][1]) == 1 and s[2][1][0] in aliases:
+            aliases.add(s[1][0])
+    dl = set()
+    for bb, si, s in fn.statements():
+        if s[0] == "=" and len(s[1]) == 1 and s[2][0] == "discr" and isinstance(s[2][1], list) and s[2][1][0] in aliases and len([p for p in s[2][1][1:] if p != "*"]) == 0:
+            dl.add(s[1][0])
+    for i, b in enumerate(fn.blocks):
+        t = b["t"]
+        if t[0] == "switch" and isinstance(t[1], list) and len(t[1]) == 1 and t[1][0] in dl and not b.get("cleanup"):
+            okb = errb = None
+            vals = {int(v): tgt for v, tgt in t[2]}
+            other = t[3]
+            okb = vals.get(ok_label, other if len(vals) == 1 else None)
+            errb = vals.get(1 - ok_label, other if len(vals) == 1 else None)
+            if okb is not None and okb != errb:
+                return (i, okb, errb)
+    return None
